@@ -89,7 +89,12 @@ func checkC01(c CaseC01, info *Info) *Failure {
 	want := map[string]interface{}{k: v}
 
 	defer resetOptions()
-	c.Opts.Apply()
+	// the same process has decoded the very same bytes before, under the default options: what a decoder or a wrapper
+	// remembers about a document must not outlive a change of the options (results are not looked at here)
+	mxj.NewMapXml([]byte(doc))
+	mxj.NewMapXmlReader(strings.NewReader(doc))
+	x2j.XmlToMap([]byte(doc))
+	c.Opts.apply() // the setters alone; the unrelated calls of Opts.Apply follow after the first comparison
 	cmp := func(name string, got map[string]interface{}, err error) *Failure {
 		if err != nil {
 			return failf("decode-error", "%s opts %+v doc %q: error %v", name, c.Opts, doc, err)
@@ -99,10 +104,17 @@ func checkC01(c CaseC01, info *Info) *Failure {
 		}
 		return nil
 	}
+	if !c.Opts.Cast {
+		m0, err := x2j.XmlToMap([]byte(doc))
+		if f := cmp("x2j.XmlToMap (same bytes decoded before the options were set)", m0, err); f != nil {
+			return f
+		}
+	}
 	m1, err := mxj.NewMapXml([]byte(doc), c.Opts.Cast)
 	if f := cmp("NewMapXml", m1, err); f != nil {
 		return f
 	}
+	bystanders()
 	m2, err := mxj.NewMapXmlReader(strings.NewReader(doc), c.Opts.Cast)
 	if f := cmp("NewMapXmlReader", m2, err); f != nil {
 		return f
